@@ -7,6 +7,7 @@ import (
 	"encoding/json"
 	"fmt"
 	"go/ast"
+	"go/build"
 	"go/parser"
 	"go/token"
 	"os"
@@ -22,6 +23,8 @@ import (
 	"github.com/dave/dst/decorator"
 	"github.com/dave/dst/decorator/resolver"
 	"github.com/dave/dst/decorator/resolver/goast"
+	"github.com/dave/dst/decorator/resolver/gobuild"
+	"github.com/dave/dst/decorator/resolver/simple"
 	"github.com/dave/dst/decorator/resolver/guess"
 )
 
@@ -109,14 +112,28 @@ func c16Worker(args []string) int {
 			}
 			want[i] = w
 		}
-		for round := 0; round < 40; round++ {
+		for round := 0; round < 42; round++ {
+			// the read-only package-name resolvers that may be shared: guess, simple, gobuild
+			var rr resolver.RestorerResolver
+			hints := map[string]string{"fmt": "fmt"}
+			switch round % 3 {
+			case 0:
+				rr = guess.New()
+			case 1:
+				rr = simple.New(map[string]string{"fmt": "fmt", "strings": "strings", "os": "os"})
+			default:
+				gb := gobuild.WithHints("/", hints)
+				gb.FindPackage = func(ctxt *build.Context, importPath, fromDir string, mode build.ImportMode) (*build.Package, error) {
+					return &build.Package{Name: importPath[strings.LastIndex(importPath, "/")+1:]}, nil
+				}
+				rr = gb
+			}
 			var shared *goast.DecoratorResolver
 			if round%2 == 0 {
 				shared = goast.New() // lazily defaulted name resolver
 			} else {
-				shared = goast.WithResolver(guess.New())
+				shared = goast.WithResolver(rr)
 			}
-			rr := guess.New()
 			var wg sync.WaitGroup
 			for i := range srcs {
 				wg.Add(1)
@@ -133,6 +150,9 @@ func c16Worker(args []string) int {
 				}(i)
 			}
 			wg.Wait()
+			if len(hints) != 1 {
+				fmt.Printf("DIFF round %d: the shared resolver's Hints map was modified (%d entries, had 1)\n", round, len(hints))
+			}
 		}
 		// repeated calls on equal inputs: identical bytes whatever the map iteration order
 		src := []byte("package p\n\nimport (\n\t\"z/b\"\n\t\"a/b\"\n\t\"m.io/b\"\n\t\"c/b\"\n)\n\nvar _ = 1\n")
